@@ -97,6 +97,28 @@ def lm_row(rng, V, exact, probs=False):
 LAY_W = ["contig", "contig", "perm", "strided", "offset"]
 DT_W = ["f32", "f32", "f64"]
 NO_LIMIT = 1073741824  # RandomWalk's "practically infinite" step limit when max_iters is None
+MUT_W = [None, None, "keys", "dict", "dict", "tensor", "all"]  # how the LM treats the dict it is handed
+
+
+def junk_kinds(rng, n, p_case=0.5, p_cell=0.6):
+    """per position None or a kind of non-finite garbage; it is only written where the property
+    says the scores are ignored (decided when the tensors are built, from the tokens/lengths)"""
+    if rng.random() >= p_case:
+        return None
+    return [rng.choice(tl.JUNK_KINDS) if rng.random() < p_cell else None for _ in range(n)]
+
+
+def lm_options(rng, eos):
+    """-> (lm_mut, default_junk): dictionary-mutating behaviour of the harness LM and the garbage
+    it returns for paths that already ended"""
+    return rng.choice(MUT_W), (rng.choice([None, None] + list(tl.JUNK_KINDS)) if eos is not None else None)
+
+
+def attempt(fn):
+    try:
+        return fn()
+    except Exception as ex:  # an observation; judged by the predicate
+        return {"error": type(ex).__name__, "message": str(ex)[:240]}
 
 
 def norm_eos(case):
@@ -221,7 +243,8 @@ class C07(PropertyCheck):
         hyp = [rng.choices(toks, w)[0] for _ in range(n)]
         logits = [dyadic_logp(rng) if exact else rand_logit(rng) for _ in range(n * V)]
         return {"kind": "seq", "shape": shape, "V": V, "dim": dim, "eos": eos, "exact": exact,
-                "hyp": hyp, "logits": logits, "dtype": dtype, "lay_logits": lay[0], "lay_hyp": lay[1]}
+                "hyp": hyp, "logits": logits, "dtype": dtype, "lay_logits": lay[0], "lay_hyp": lay[1],
+                "junk": junk_kinds(rng, n)}
 
     # ---- packed
     def gen_packed(self, rng, tier):
@@ -254,9 +277,12 @@ class C07(PropertyCheck):
         hyp = [[rng.choices(toks, [6] * V + [1, 1])[0] for _ in range(T)] for _ in range(N)]
         logits = [[[dyadic_logp(rng) if exact else rand_logit(rng) for _ in range(V)]
                    for _ in range(Tm)] for _ in range(N)]
+        junk = junk_kinds(rng, N * Tm)
+        if junk is not None:
+            junk = [junk[n * Tm:(n + 1) * Tm] for n in range(N)]
         return {"kind": "packed", "lens": lens, "enforce_sorted": enforce, "dim": dim, "V": V,
                 "hyp": hyp, "logits": logits, "exact": exact, "dtype": dtype, "lay_data": lay[0],
-                "lay_hyp": lay[1], "eos_arg": eos_arg}
+                "lay_hyp": lay[1], "eos_arg": eos_arg, "junk": junk}
 
     # ---- walk
     def canonical_draws(self, V, T, eos):
@@ -305,10 +331,12 @@ class C07(PropertyCheck):
                                 sel = [rng.randrange(K) for _ in range(N)]
                             tabs = lm_tables(rng, V, K, steps, e, exact)
                             draws = [[paths[n][t] for n in range(N)] for t in range(steps)]
+                            mut, dj = lm_options(rng, e)
                             yield {"kind": "walk", "V": V, "N": N, "batched": batched, "eos": eos,
                                    "max_iters": T, "tables": tabs, "default": lm_row(rng, V, exact),
                                    "draws": draws, "exact": exact, "sel": sel,
-                                   "dtype": rng.choice(DT_W), "lm_layout": rng.choice(LAY_W)}
+                                   "dtype": rng.choice(DT_W), "lm_layout": rng.choice(LAY_W),
+                                   "lm_mut": mut, "default_junk": dj}
 
     # ---- advance: the step function called directly (with and without prefix lengths)
     def gen_advance(self, rng, tier):
@@ -364,11 +392,13 @@ class C07(PropertyCheck):
                                 K = max(K, 2)
                                 sel = [rng.randrange(K) for _ in range(N or 1)]
                             tabs = lm_tables(rng, V, K, T, e, False, probs=True)
+                            mut, dj = lm_options(rng, e)
                             yield {"kind": "dist", "V": V, "N": N, "eos": eos, "max_iters": T,
                                    "tables": tabs, "default": lm_row(rng, V, False, probs=True),
                                    "values": self.dist_values(rng, V, T, e), "exact": False,
                                    "sel": sel, "shared": N is None,
-                                   "validate_args": rng.choice([True, True, None, False])}
+                                   "validate_args": rng.choice([True, True, None, False]),
+                                   "lm_mut": mut, "default_junk": dj}
 
     def dist_values(self, rng, V, T, eos):
         """rows whose validity is asked: every length 1..T+1, with/without eos, OOV before/after eos"""
@@ -437,11 +467,13 @@ class C07(PropertyCheck):
                                     K = max(N, 2)
                                     sel = [rng.randrange(K) for _ in range(N)]
                             tabs = lm_tables(rng, V, K, T, e, exact)
+                            mut, dj = lm_options(rng, e)
                             yield {"kind": "sample", "V": V, "N": N, "shape": shape, "eos": eos,
                                    "max_iters": limit, "tables": tabs, "default": lm_row(rng, V, exact),
                                    "draws": draws, "exact": exact, "sel": sel, "shared": N is None,
                                    "validate_args": rng.choice([True, True, None, False]),
-                                   "dtype": rng.choice(DT_W), "lm_layout": rng.choice(LAY_W)}
+                                   "dtype": rng.choice(DT_W), "lm_layout": rng.choice(LAY_W),
+                                   "lm_mut": mut, "default_junk": dj}
 
     # ---- greedy
     def gen_greedy(self, rng, tier):
@@ -482,9 +514,12 @@ class C07(PropertyCheck):
                 fr.append(row)
             frames.append(fr)
         lens = [rng.randrange(0, T + 2) for _ in range(N)] if with_lens else None
+        junk = junk_kinds(rng, N * T) if with_lens else None
+        if junk is not None:
+            junk = [junk[n * T:(n + 1) * T] for n in range(N)]
         return {"kind": "greedy", "V": V, "blank": blank, "batch_first": batch_first,
                 "stream": stream, "frames": frames, "lens": lens, "T": T, "dtype": dtype,
-                "lay_logits": lay[0], "lay_lens": lay[1]}
+                "lay_logits": lay[0], "lay_lens": lay[1], "junk": junk}
 
     # ------------------------------------------------------------------ implementation
     def run_impl(self, case):
@@ -494,11 +529,29 @@ class C07(PropertyCheck):
         return getattr(self, "req_" + case["kind"])(case)
 
     # ---- seq
-    def seq_tensors(self, case):
+    @staticmethod
+    def seq_ignored(case):
+        """positions whose scores the property says are ignored: out-of-vocabulary tokens and
+        everything after the first eos along the sequence dimension"""
+        import torch
+        shape, V, eos = case["shape"], case["V"], case["eos"]
+        hyp = torch.tensor(case["hyp"], dtype=torch.long).view(shape)
+        ign = (hyp < 0) | (hyp >= V)
+        nd = len(shape)
+        if eos is not None and -nd <= case["dim"] < nd:
+            d = case["dim"] % nd
+            is_eos = (hyp == eos).long()
+            ign = ign | ((is_eos.cumsum(d) - is_eos) > 0)
+        return ign
+
+    def seq_tensors(self, case, clean=False):
+        """`clean`: without the non-finite garbage in the ignored positions (what the model gets)"""
         import torch
         shape, V = case["shape"], case["V"]
         hyp = torch.tensor(case["hyp"], dtype=torch.long).view(shape)
         logits = tl.from_fracs(case["logits"], case.get("dtype")).view(shape + [V])
+        if case.get("junk") and not clean and logits.numel():
+            logits = tl.put_junk(logits, self.seq_ignored(case), case["junk"])
         return tl.relayout(logits, case.get("lay_logits")), tl.relayout(hyp, case.get("lay_hyp"))
 
     def impl_seq(self, case):
@@ -513,11 +566,11 @@ class C07(PropertyCheck):
             out2 = SequenceLogProbabilities(case["dim"], case["eos"])(logits, hyp)
         return {"shape": list(out.shape), "out": [tl.fs(x) for x in out.flatten().tolist()],
                 "module_same": bool(torch.equal(out, out2)),
-                "inputs_same": bool(torch.equal(l0, logits) and torch.equal(h0, hyp))}
+                "inputs_same": bool(tl.same_tensor(l0, logits) and torch.equal(h0, hyp))}
 
     def req_seq(self, case):
         import torch
-        logits, hyp = self.seq_tensors(case)
+        logits, hyp = self.seq_tensors(case, clean=True)
         lsm = logits if case["exact"] else torch.nn.functional.log_softmax(logits, -1)
         nd = len(case["shape"])
         cols = None
@@ -533,13 +586,22 @@ class C07(PropertyCheck):
             "lsm": [tl.fs(x) for x in lsm.flatten().tolist()], "hyp": case["hyp"], "cols": cols}}
 
     # ---- packed
-    def packed_objs(self, case):
+    def packed_objs(self, case, clean=False):
         import torch
         from torch.nn.utils.rnn import pack_padded_sequence, PackedSequence
         logits = tl.from_fracs(case["logits"], case.get("dtype"))
         N = len(case["lens"])
         logits = logits.view(N, max(case["lens"]), case["V"])
         lens = torch.tensor(case["lens"])
+        if case.get("junk") and not clean:
+            # ignored: the padding frames (never packed; seen by the padded reference call) and
+            # the frames whose token is out of the vocabulary
+            Tm = logits.size(1)
+            h = torch.tensor(case["hyp"], dtype=torch.long).view(N, -1)
+            ign = torch.arange(Tm).unsqueeze(0) >= lens.unsqueeze(1)
+            if h.size(1) >= Tm:
+                ign = ign | (h[:, :Tm] < 0) | (h[:, :Tm] >= case["V"])
+            logits = tl.put_junk(logits, ign, case["junk"])
         ps = pack_padded_sequence(logits, lens, batch_first=True, enforce_sorted=case["enforce_sorted"])
         if case.get("lay_data") not in (None, "contig"):
             ps = PackedSequence(tl.relayout(ps.data, case["lay_data"]), ps.batch_sizes,
@@ -572,11 +634,11 @@ class C07(PropertyCheck):
                 except Exception as ex:  # the padded-tensor path, not the packed one, raised
                     padded = {"error": type(ex).__name__, "message": str(ex)[:160]}
         return {"out": [tl.fs(x) for x in out.tolist()], "padded": padded,
-                "inputs_same": bool(torch.equal(d0, ps.data) and torch.equal(h0, h))}
+                "inputs_same": bool(tl.same_tensor(d0, ps.data) and torch.equal(h0, h))}
 
     def req_packed(self, case):
         import torch
-        logits, lens, ps, hyp = self.packed_objs(case)
+        logits, lens, ps, hyp = self.packed_objs(case, clean=True)
         lsm = (lambda x: x) if case["exact"] else (lambda x: torch.nn.functional.log_softmax(x, -1))
         return {"op": "c07.packed", "case": {
             "V": case["V"], "N": hyp.size(0), "T": hyp.size(1),
@@ -588,7 +650,8 @@ class C07(PropertyCheck):
     # ---- walk
     def walk_lm(self, case, shared=False):
         return tl.make_lm(case["V"], case["tables"], case["default"], norm_eos(case), shared=shared,
-                          dtype=case.get("dtype"), layout=case.get("lm_layout"))
+                          dtype=case.get("dtype"), layout=case.get("lm_layout"),
+                          mutate=case.get("lm_mut"), default_junk=case.get("default_junk"))
 
     def impl_walk(self, case):
         import torch
@@ -597,12 +660,13 @@ class C07(PropertyCheck):
         from pydrobert.torch.distributions import SequentialLanguageModelDistribution
         V, N, T = case["V"], case["N"], case["max_iters"]
         lm = self.walk_lm(case)
-        init = init_state(case)
+        # a language model may write into the dictionary it is handed: every direct call gets its
+        # own dictionary (as the wrapper does with `initial_state.copy()`)
         walk = RandomWalk(lm, case["eos"])
         log = []
         ctx = (lambda: tl.identity_log_softmax()) if case["exact"] else _null
         with ctx(), tl.replay_multinomial(case["draws"], log):
-            y, lens, lp = walk(init, N if case["batched"] else None, T)
+            y, lens, lp = walk(init_state(case), N if case["batched"] else None, T)
         shape = [list(y.shape), list(lens.shape), list(lp.shape)]
         if not case["batched"]:
             y, lens, lp = y.unsqueeze(1), lens.unsqueeze(0), lp.unsqueeze(0)
@@ -610,16 +674,42 @@ class C07(PropertyCheck):
                "y": [y[: int(lens[n]), n].tolist() for n in range(N)],
                "lp": [tl.fs(x) for x in lp.tolist()], "steps": len(log), "walk_eos": walk.eos,
                "unused_draws": len(case["draws"]) - len(log)}
+
+        def again():
+            # the same walk object a second time with the same draws: nothing may be left over
+            with ctx(), tl.replay_multinomial(case["draws"], []):
+                y2, lens2, lp2 = walk(init_state(case), N if case["batched"] else None, T)
+            if not case["batched"]:
+                y2, lens2, lp2 = y2.unsqueeze(1), lens2.unsqueeze(0), lp2.unsqueeze(0)
+            return bool(torch.equal(y2, y) and torch.equal(lens2, lens) and tl.same_tensor(lp2, lp))
+        obs["walk_again_same"] = attempt(again)
         # the two other code paths: the wrapper's log_prob and sequence_log_probs on the LM's outputs
         if y.size(0) >= 1:
             with ctx():
+                init = init_state(case)
                 full = lm(y[:-1], dict() if init is None else init)
                 obs["seq_lp"] = [tl.fs(x) for x in sequence_log_probs(full, y, 0, walk.eos).tolist()]
+                init = init_state(case)
+                snap = tl.state_snapshot(init or {})
                 dist = SequentialLanguageModelDistribution(walk, N, init, T, validate_args=True)
-                try:
-                    obs["dist_lp"] = [tl.fs(x) for x in dist.log_prob(y.t().unsqueeze(0)).view(-1).tolist()]
-                except Exception as ex:  # observation, judged by the predicate
-                    obs["dist_lp"] = {"error": type(ex).__name__, "message": str(ex)[:160]}
+                value = y.t().unsqueeze(0)
+                lp_of = lambda v: [tl.fs(x) for x in dist.log_prob(v).view(-1).tolist()]
+                obs["dist_lp"] = attempt(lambda: lp_of(value))
+                # more calls on the same distribution object: log_prob again, a sample with the same
+                # draws (one walk of batch size N), log_prob of that sample
+                obs["dist_lp_again"] = attempt(lambda: lp_of(value))
+
+                def resample():
+                    with tl.replay_multinomial(case["draws"], []):
+                        return dist.sample()
+                smp = attempt(resample)
+                if isinstance(smp, dict):
+                    obs["dist_sample"] = smp
+                else:
+                    obs["dist_sample"] = smp.tolist()
+                    obs["dist_sample_lp"] = attempt(lambda: lp_of(smp.unsqueeze(0)))
+                obs["init_changes"] = tl.state_changes(dist.initial_state, snap) + (
+                    [] if init is None else tl.state_changes(init, snap))
         return obs
 
     def req_walk(self, case):
@@ -1030,6 +1120,38 @@ class C07(PropertyCheck):
                 fails.append((f"log_prob of the walk's own output raised {impl['dist_lp']}", sig))
             elif not all_close(impl["dist_lp"], s["chained"], case["exact"]):
                 fails.append((f"wrapper log_prob {impl['dist_lp']} != chained {s['chained']}", None))
+        fails += self.pred_repeated(case, impl, s)
+        return fails
+
+    def pred_repeated(self, case, impl, s):
+        """further calls on the same walk / distribution object answer as the first ones, and the
+        initial state the caller handed over is left alone"""
+        fails = []
+        lm_note = (f"(language model: dictionary handling {case.get('lm_mut') or 'new dictionaries'}, rows for "
+                   f"ended paths {case.get('default_junk') or 'finite'})")
+        if impl.get("walk_again_same", True) is not True:
+            fails.append((f"the same RandomWalk called a second time with the same draws: "
+                          f"{impl['walk_again_same']} (True = same result) {lm_note}", None))
+        for key, what in (("dist_lp_again", "a second log_prob of the walk's output on the same distribution"),
+                          ("dist_sample_lp", "log_prob of a sample drawn after log_prob on the same distribution")):
+            if key not in impl:
+                continue
+            if isinstance(impl[key], dict):
+                fails.append((f"{what} raised {impl[key]} {lm_note}", None))
+            elif not all_close(impl[key], s["chained"], case["exact"]):
+                fails.append((f"{what}: {impl[key]} != chained {s['chained']} {lm_note}", None))
+        if "dist_sample" in impl:
+            e = norm_eos(case)
+            want = [p + [e] * (s["steps"] - len(p)) for p in s["paths"]]
+            if isinstance(impl["dist_sample"], dict):
+                fails.append((f"sample() after log_prob on the same distribution raised {impl['dist_sample']} "
+                              f"{lm_note}", None))
+            elif impl["dist_sample"] != want:
+                fails.append((f"sample() after log_prob on the same distribution, same draws: {impl['dist_sample']} "
+                              f"!= the paths padded with eos {want} {lm_note}", None))
+        if impl.get("init_changes"):
+            fails.append((f"the initial_state of the distribution was modified: {impl['init_changes']} "
+                          f"{lm_note}", None))
         return fails
 
     # ---- dist
